@@ -214,6 +214,19 @@ PAIRS = [(v, i, j) for v in sorted(C) for (i, j) in C[v]["pairs"]]
 WLO, WHI = rt.shard_range(len(PAIRS))
 
 
+_wd = None
+
+
+def _workdir():
+    global _wd
+    if _wd is None:
+        import atexit
+        import shutil
+        _wd = tempfile.mkdtemp(prefix="vt_c16_", dir="/var/tmp")
+        atexit.register(shutil.rmtree, _wd, True)
+    return _wd
+
+
 def check_workers(v, i, j):
     from annet import api
     from annet.vendors import registry_connector
@@ -224,7 +237,10 @@ def check_workers(v, i, j):
     dev, fmt = vendor_ctx(hw)
     old, new = C[v]["trees"][i], C[v]["trees"][j]
     joiner = registry_connector.get().match(hw).make_formatter()
-    with tempfile.TemporaryDirectory(prefix="vt_c16_", dir="/var/tmp") as td:
+    # the SAME two paths are rewritten for every pair this process compares (a dump directory that is refreshed between
+    # runs of a long-lived process): the workers must read what is in the files now
+    td = _workdir()
+    if True:
         po, pn = os.path.join(td, "old.cfg"), os.path.join(td, "new.cfg")
         with open(po, "w") as f:
             f.write(joiner.join(old))
